@@ -1,3 +1,93 @@
-//! C03 — not built yet.
+//! C03 — end-to-end answers: source TEXT (independent printer) through `RoocSolver … auto_solver`,
+//! judged by the Lean reference interpreter (exhaustive enumeration with `Sem.eval`).
 use crate::case::Case;
-pub fn generate(_seed: u64, _n: usize, _thorough: bool, _corpus: Option<&str>) -> Vec<Case> { vec![] }
+use crate::gen_model::{self, ModelCfg, VarDecl};
+use crate::rng::Rng;
+use crate::sx;
+use crate::text::{Printer, Spelling};
+use rooc::model_transformer::Model;
+use rooc::{auto_solver, MILPValue, RoocSolver, RoocSolverError, SolverError, VariableType};
+use std::sync::mpsc;
+use std::time::Duration;
+
+pub fn solver_error(e: &SolverError) -> String {
+    match e {
+        SolverError::Infeasible => "(infeasible)".into(),
+        SolverError::Unbounded => "(unbounded)".into(),
+        other => format!("(solver-error {})", sx::q(&format!("{:?}", other).chars().take(60).collect::<String>())),
+    }
+}
+
+/// runs the one-shot entry point in a helper thread so that a hang is observed instead of suffered
+pub fn solve_text(src: &str) -> String {
+    let (tx, rx) = mpsc::channel();
+    let s = src.to_string();
+    std::thread::spawn(move || {
+        let r = std::panic::catch_unwind(|| {
+            let solver = match RoocSolver::try_new(s) { Ok(s) => s, Err(e) => return format!("(compile-error parse {})", sx::q(&format!("{:?}", e).chars().take(40).collect::<String>())) };
+            match solver.solve_using(auto_solver) {
+                Ok(sol) => {
+                    let asg = sol.assignment().iter().map(|a| {
+                        let v: f64 = match a.value { MILPValue::Bool(b) => if b { 1.0 } else { 0.0 }, MILPValue::Int(i) => i as f64, MILPValue::Real(r) => r };
+                        format!("({} {})", sx::q(&a.name), sx::num(v))
+                    }).collect::<Vec<_>>().join(" ");
+                    format!("(solution {} (assign{}{}))", sx::num(sol.value()), if asg.is_empty() { "" } else { " " }, asg)
+                }
+                Err(RoocSolverError::Transform(e)) => format!("(compile-error transform {})", sx::q(&format!("{:?}", e).chars().take(40).collect::<String>())),
+                Err(RoocSolverError::Linearization(e)) => format!("(compile-error linearize {})", crate::props::c01::lin_error(&e)),
+                Err(RoocSolverError::Solver(e)) => solver_error(&e),
+            }
+        });
+        let _ = tx.send(r.unwrap_or_else(|_| "(panic)".to_string()));
+    });
+    rx.recv_timeout(Duration::from_secs(20)).unwrap_or_else(|_| "(hang)".to_string())
+}
+
+fn discrete_decls(r: &mut Rng, n: usize, with_real: bool) -> Vec<VarDecl> {
+    let names = ["x", "y", "z", "w"];
+    (0..n).map(|i| {
+        let ty = match r.below(if with_real { 6 } else { 5 }) {
+            0 | 1 | 2 => VariableType::Boolean,
+            3 | 4 => { let lo = r.range(-2, 1) as i32; VariableType::IntegerRange(lo, lo + r.range(0, 3) as i32) }
+            _ => { let lo = r.range(-2, 1) as f64; VariableType::Real(lo, lo + r.range(1, 4) as f64) }
+        };
+        VarDecl { name: names[i].to_string(), ty }
+    }).collect()
+}
+
+pub fn program(r: &mut Rng, with_real: bool) -> (Model, String) {
+    let cfg = ModelCfg { max_vars: 3, depth: 2, logic: true, piecewise: true, unbounded: false, fractional: false, strict_cmp: false, hostile: false };
+    let nv = 1 + r.below(3);
+    let ds = discrete_decls(r, nv, with_real);
+    let (m, _) = gen_model::model_with(r, &cfg, ds);
+    let sp = Spelling { aliases: r.chance(1, 2), implicit_mul: r.chance(1, 2), redundant_parens: r.chance(1, 2), named_consts: r.chance(1, 3) };
+    let mut pr = r.fork();
+    let mut p = Printer { r: &mut pr, sp, consts: vec![] };
+    let text = p.program(&m);
+    (m, text)
+}
+
+pub fn one(m: &Model, text: &str, tag: &str) -> Case {
+    let mut c = Case::default();
+    let out = solve_text(text);
+    c.imp = out.clone();
+    c.show = text.replace('\n', " ; ");
+    c.oracle = format!("ref {} {}", sx::model(m), out);
+    c.tags = vec![tag.into(), out.trim_start_matches('(').split(|ch| ch == ' ' || ch == ')').next().unwrap_or("").to_string()];
+    c.nontrivial = out.starts_with("(solution") || out.starts_with("(infeasible");
+    let mut fl = crate::props::c01::flags(m);
+    if m.domain().values().all(|d| !d.is_used()) { fl.push("no-used-variables".into()); }
+    if !fl.is_empty() { c.sig = Some(fl.join(",")); }
+    if out == "(panic)" || out == "(hang)" { c.impl_violation = Some(format!("one-shot solve {} on: {}", out, c.show)); }
+    c
+}
+
+pub fn generate(seed: u64, n: usize, _thorough: bool, _corpus: Option<&str>) -> Vec<Case> {
+    let mut r = Rng::new(seed).fork();
+    let mut out = vec![];
+    for i in 0..n {
+        let (m, text) = program(&mut r, false);
+        out.push(one(&m, &text, if i % 2 == 0 { "discrete" } else { "discrete" }));
+    }
+    out
+}
